@@ -58,6 +58,8 @@ structure FObs where
   graph0 : Graph := {}
   rmMach : Bool := true
   rmJob : Bool := true
+  /-- `CompositeFeatureObserver.column_names` (set once, by the constructor) -/
+  names : List (FT × List String) := []
 deriving Repr, DecidableEq, Inhabited
 
 structure FWorld where
@@ -232,6 +234,24 @@ def compositeCols (heap : List FObs) (parts : List Nat) : List (FT × List (List
   let order := obs.foldl (fun (acc : List FT) o => o.cols.foldl (fun acc tc => if acc.contains tc.1 then acc else acc ++ [tc.1]) acc) []
   order.map fun ft => (ft, (obs.flatMap fun o => (o.cols.filter (·.1 == ft)).flatMap (·.2)))
 
+/-- `observer.__class__.__name__.replace("Observer", "")` -/
+def FKind.className : FKind → String
+  | .isReady => "IsReady" | .earliestStart => "EarliestStartTime" | .duration => "Duration"
+  | .isScheduled => "IsScheduled" | .positionInJob => "PositionInJob" | .remainingOps => "RemainingOperations"
+  | .isCompleted => "IsCompleted" | .composite => "CompositeFeature" | _ => ""
+
+/-- the column names one component contributes for a feature type: `Name`, or `Name_0 … Name_{k-1}` for `k > 1` columns -/
+def partNames (o : FObs) (ft : FT) : List String :=
+  (o.cols.filter (·.1 == ft)).flatMap fun tc =>
+    if tc.2.length > 1 then (List.range tc.2.length).map fun i => o.kind.className ++ "_" ++ toString i
+    else [o.kind.className]
+
+/-- `CompositeFeatureObserver._set_column_names` -/
+def compositeNames (heap : List FObs) (parts : List Nat) : List (FT × List String) :=
+  let obs := parts.filterMap fun i => heap[i]?
+  let order := obs.foldl (fun (acc : List FT) o => o.cols.foldl (fun acc tc => if acc.contains tc.1 then acc else acc ++ [tc.1]) acc) []
+  order.map fun ft => (ft, obs.flatMap fun o => partNames o ft)
+
 /-- `if <cond> and not graph.is_removed(node): graph.remove_node(node)` -/
 def removeIf (g : Graph) (nid : Nat) (cond : Bool) : Graph :=
   if cond && !(g.removed.getD nid true) then g.removeNode nid else g
@@ -350,7 +370,8 @@ def FWorld.constructComposite (w : FWorld) (parts : Option (List Nat)) : FWorld 
     | none => w.subs.filter fun id => match w.heap[id]? with | some o => o.kind.isFeature | none => false
   let o : FObs := { kind := .composite, parts := ps }
   let (w1, id) := w.push o
-  (w1.setObs id { o with cols := compositeCols w1.heap ps, fts := (compositeCols w1.heap ps).map (·.1) }, some id)
+  (w1.setObs id { o with cols := compositeCols w1.heap ps, fts := (compositeCols w1.heap ps).map (·.1),
+                         names := compositeNames w1.heap ps }, some id)
 
 /-- `create_or_get_observer(IsCompletedObserver, condition=has all of these feature types, feature_types=…)` -/
 def FWorld.getIsCompleted (w : FWorld) (need : List FT) : FWorld × Nat :=
